@@ -9,6 +9,7 @@ mod findings;
 mod finding_f3;
 mod search;
 mod serde_find;
+mod standin;
 mod ser26_find;
 mod decoder_find;
 mod opcost_find;
@@ -22,6 +23,10 @@ fn main() {
     let out = match args.get(1).map(|s| s.as_str()) {
         Some("finding") => findings::run(args.get(2).map(|s| s.as_str()).unwrap_or("")),
         Some("search") => search::run(&args[2..]),
+        Some("standin") => match args.get(2).map(|s| s.as_str()) {
+            Some("triples") => standin::triples(args.get(3).and_then(|s| s.parse().ok()).unwrap_or(0)),
+            _ => "{\"error\":\"unknown stand-in\"}".to_string(),
+        },
         Some("rerun") => search::rerun(args.get(2).map(|s| s.as_str()).unwrap_or("{}")),
         _ => "{\"error\":\"usage: vreplay finding <id> | search <pid> <label> <fn> <seed> | rerun <json>\"}".to_string(),
     };
